@@ -7,3 +7,6 @@ package ast
 // Node invariants that the inference from ast/sql.go (fields dereferenced unconditionally by SQL())
 // cannot state because SQL() branches on another field.
 // @ typeinv ast.DefaultExpr self.Default || self.Expr != nil
+// number literals keep their spelling, which is never empty (parseUnary looks at its first byte)
+// @ typeinv ast.IntLiteral len(self.Value) > 0
+// @ typeinv ast.FloatLiteral len(self.Value) > 0
